@@ -65,22 +65,45 @@
                             + E19(segment i) + E19(segment j)
        (C19_global_lipschitz_ieee, C19_global_lipschitz_ieee_adjacent).
 
-   NOT proved (the property stays PARTIAL): vertex hits through
-   lengths[j] / dist when several vertices' cumulative lengths lie within
-   Dfrac of each other (the accumulated-error bound it needed is now there:
-   C19_chord_le_length_increment_ieee / C19_chain_vertices_ieee bound the
-   distance between the vertices of such a cluster; what is missing is the
-   case analysis of where the search lands inside the cluster, near-zero
-   segments -- guard true -- included); the global bound is stated with the
-   segment indices as hypotheses, not yet through the search contract
-   (C19_search_contract_ieee gives l_{i-1} <= d <= l_i for the index it
-   returns; the guard-true segments again need their own case), and only for
-   the natural lengths -- not for a curve cut or extended to a requested
-   length, nor for the osu! Catmull surplus lengths.  These are monitored by
-   the search oracle of harness/src/c19.rs with the rounding slack
-   1e-3 + 4e-6 * (magnitude + dist) (4e-6 = 67 * 2^-24), which is wider than
-   the proved bounds (at most 7.02 * 2^-24 * magnitude per coordinate and
-   segment end, plus 3.02 * 2^-24 |b - a|). *)
+     - the same WITHOUT per-segment hypotheses and THROUGH THE SEARCH, for
+       exact length <= 2^40 (then the guard of the code fires only on
+       degenerate segments: C19_guard_fires_only_on_degenerate_segments; the
+       computed lengths are finite and non-decreasing:
+       C19_natural_lengths_sorted_ieee; the transcribed search puts a
+       distance in [0, dist] on a segment containing it:
+       C19_search_locates_ieee): with n vertices of coordinate magnitude
+       <= M and E19max M = 7.02 * 2^-24 M + 2^-125,
+         * the position computed for a distance d against ANY vertex m:
+           (1 + delta19) |d - l_m| + n eta19 dist + E19max M
+           (C19_position_near_vertex_ieee);
+         * VERTEX HITS: position_at (l_j / dist) is vertex j up to
+           (1 + delta19) Dfrac + n eta19 dist + E19max M for every vertex
+           with l_j > 0 -- clusters of nearly equal lengths, near-zero
+           segments and the last vertex included
+           (C19_vertex_fraction_position_ieee);
+         * the GLOBAL Lipschitz bound for two distances in [0, dist] as the
+           search locates them, and for position_at at two finite progresses
+           in [0, 1]:  (1 + delta19) |b - a| + n eta19 dist + 2 E19max M per
+           coordinate, + 4 E19max M Euclidean
+           (C19_global_lipschitz_search_ieee,
+            C19_global_lipschitz_ieee_position_at).
+
+   NOT proved (the property stays PARTIAL): all across-segment IEEE results
+   are for the NATURAL lengths of the path (calculate_length without a
+   requested length, zero seed).  Not covered: a curve cut or extended to a
+   requested length (its last length is the requested one, the last vertex
+   the adjusted one: needs C16_adjust_end_ieee_bound chained in), the osu!
+   Catmull surplus seed (lengths larger than the geometry; chord <= arc holds
+   a fortiori but is not stated), paths with a non-degenerate segment shorter
+   than 2^-10 or an exact length above 2^40 (2^1000 for the theorems with
+   given segment indices), the vertex with l_j = 0 in
+   C19_vertex_fraction_position_ieee (progress 0: covered by
+   C19_progress_zero_is_first_vertex), and the last step from |b - a| to
+   |pb - pa| * dist for progresses (one more rounding of the product).  The
+   search oracle of harness/src/c19.rs keeps monitoring with the rounding
+   slack 1e-3 + 4e-6 * (magnitude + dist) (4e-6 = 67 * 2^-24), which is wider
+   than the proved bounds (7.02 * 2^-24 * magnitude per coordinate and
+   position, plus 3.02 * 2^-24 |b - a|, plus n * 1.002 * 2^-53 * dist). *)
 From Coq Require Import Reals.
 From Flocq Require Import IEEE754.BinarySingleNaN.
 From RM Require Import Model.ControlPoints Model.Curve Proofs.PositionFacts Proofs.LengthFacts
@@ -757,8 +780,9 @@ Print Assumptions C19_search_contract_ieee.
    than Dfrac -- the search may land on another vertex of the cluster, and
    bounding its distance to vertex j needs "chord <= arc" for the IEEE lengths
    (now proved for the natural lengths: C19_chord_le_length_increment_ieee and
-   C19_chain_vertices_ieee at the end of this file; the case analysis of the
-   search inside a cluster is what remains); (2) the first and the last vertex
+   C19_chain_vertices_ieee at the end of this file, and with them the FULL
+   vertex-hit statement for natural lengths, clusters included:
+   C19_vertex_fraction_position_ieee); (2) the first and the last vertex
    (covered separately by C19_progress_zero_is_first_vertex and
    C19_progress_one_repeated_last_length); (3) slope <= 1 + rounding for the
    lengths calculate_length computes: proved for the natural lengths as
@@ -905,3 +929,161 @@ Proof.
   split; [exact ex_global_lipschitz|]. split; [vm_compute; reflexivity|]. split; vm_compute; reflexivity.
 Qed.
 Print Assumptions C19_global_lipschitz_example.
+
+(* ------------------------------------------------------------------ *)
+(* the same WITHOUT per-segment hypotheses and THROUGH THE SEARCH:      *)
+(* exact length <= 2^40 (then the near-zero guard of the code fires     *)
+(* only on degenerate segments)                                         *)
+(* ------------------------------------------------------------------ *)
+
+Theorem C19_global_definitions_2 :
+  (forall M, E19max M = (u32 * 7.02 * M + Raux.bpow Zaux.radix2 (-125))%R) /\
+  (forall M path, coords_le M path <->
+     Forall (fun p => (Rabs (B2R (px p)) <= M)%R /\ (Rabs (B2R (py p)) <= M)%R) path) /\
+  (forall c0 c1 M, (Rabs c0 <= M)%R -> (Rabs c1 <= M)%R -> (E19 c0 c1 <= E19max M)%R).
+Proof. split; [|split]; [intros; reflexivity|intros; reflexivity|exact E19_le_max]. Qed.
+Print Assumptions C19_global_definitions_2.
+
+(* the computed natural lengths are finite, non-decreasing, within [0, 2^41] *)
+Theorem C19_natural_lengths_sorted_ieee :
+  forall (path : list Pos),
+  Forall (fun p => coord_le p 20) path -> segs_ok path -> (length path <= 2 ^ 50)%nat ->
+  (poly_len (map R2 path) <= Raux.bpow Zaux.radix2 40)%R ->
+  sorted_fin (natural path D.zero) /\
+  (forall k l, nth_error (natural path D.zero) k = Some l ->
+     is_finite l = true /\ (0 <= B2R l <= Raux.bpow Zaux.radix2 41)%R /\
+     (B2R l <= B2R (Curve.dist (natural path D.zero)))%R).
+Proof.
+  intros path Hc Hs Hn Ht. split; [exact (natural_sorted_fin path Hc Hs Hn Ht)|].
+  intros k l H. destruct (natural_nth_bound path Hc Hs Hn Ht k l H) as (F & B).
+  split; [exact F|]. split; [exact B|exact (natural_le_dist path Hc Hs Hn Ht k l H)].
+Qed.
+Print Assumptions C19_natural_lengths_sorted_ieee.
+
+(* a segment on which the guard fires has two numerically equal end points *)
+Theorem C19_guard_fires_only_on_degenerate_segments :
+  forall (path : list Pos),
+  Forall (fun p => coord_le p 20) path -> segs_ok path -> (length path <= 2 ^ 50)%nat ->
+  (poly_len (map R2 path) <= Raux.bpow Zaux.radix2 40)%R ->
+  forall k p0 p1 l0 l1,
+  nth_error path k = Some p0 -> nth_error path (S k) = Some p1 ->
+  nth_error (natural path D.zero) k = Some l0 -> nth_error (natural path D.zero) (S k) = Some l1 ->
+  D.le (D.abs (D.sub l0 l1)) D.eps = true -> R2 p0 = R2 p1.
+Proof. exact guard_true_degenerate. Qed.
+Print Assumptions C19_guard_fires_only_on_degenerate_segments.
+
+(* global bound, segment indices given, nothing assumed about the guard *)
+Theorem C19_global_lipschitz_segments_ieee :
+  forall (path : list Pos),
+  Forall (fun p => coord_le p 20) path -> segs_ok path -> (length path <= 2 ^ 50)%nat ->
+  (poly_len (map R2 path) <= Raux.bpow Zaux.radix2 40)%R ->
+  forall i j a b p0 p1 d0 d1 q0 q1 e0 e1,
+  (i <= j)%nat ->
+  nth_error path i = Some p0 -> nth_error path (S i) = Some p1 ->
+  nth_error (natural path D.zero) i = Some d0 -> nth_error (natural path D.zero) (S i) = Some d1 ->
+  nth_error path j = Some q0 -> nth_error path (S j) = Some q1 ->
+  nth_error (natural path D.zero) j = Some e0 -> nth_error (natural path D.zero) (S j) = Some e1 ->
+  is_finite a = true -> is_finite b = true ->
+  (B2R d0 <= B2R a <= B2R d1)%R -> (B2R e0 <= B2R b <= B2R e1)%R ->
+  let Eax := E19 (B2R (px p0)) (B2R (px p1)) in
+  let Eay := E19 (B2R (py p0)) (B2R (py p1)) in
+  let Ebx := E19 (B2R (px q0)) (B2R (px q1)) in
+  let Eby := E19 (B2R (py q0)) (B2R (py q1)) in
+  let G := ((1 + delta19) * Rabs (B2R b - B2R a) + INR (j - i + 1) * eta19 * B2R e1)%R in
+  exists qa qb,
+    interpolate_vertices path (natural path D.zero) (S i) a = Done qa /\
+    interpolate_vertices path (natural path D.zero) (S j) b = Done qb /\
+    (Rabs (B2R (px qa) - B2R (px qb)) <= G + Eax + Ebx)%R /\
+    (Rabs (B2R (py qa) - B2R (py qb)) <= G + Eay + Eby)%R /\
+    (edist (R2 qa) (R2 qb) <= G + (Eax + Eay) + (Ebx + Eby))%R.
+Proof. exact global_lipschitz_segments_ieee. Qed.
+Print Assumptions C19_global_lipschitz_segments_ieee.
+
+(* where the transcribed search puts a finite distance in [0, dist] *)
+Theorem C19_search_locates_ieee :
+  forall (path : list Pos),
+  Forall (fun p => coord_le p 20) path -> segs_ok path -> (length path <= 2 ^ 50)%nat ->
+  (poly_len (map R2 path) <= Raux.bpow Zaux.radix2 40)%R ->
+  forall d : F64, is_finite d = true -> (0 <= B2R d <= B2R (Curve.dist (natural path D.zero)))%R ->
+  (idx_of_dist (natural path D.zero) d = 0%nat /\ B2R d = 0%R) \/
+  exists i p0 p1 l0 l1, idx_of_dist (natural path D.zero) d = S i /\
+    nth_error path i = Some p0 /\ nth_error path (S i) = Some p1 /\
+    nth_error (natural path D.zero) i = Some l0 /\ nth_error (natural path D.zero) (S i) = Some l1 /\
+    (B2R l0 <= B2R d <= B2R l1)%R.
+Proof. exact search_locates. Qed.
+Print Assumptions C19_search_locates_ieee.
+
+(* the position computed for a distance (search, then interpolation) against
+   ANY vertex m of the curve; n = number of vertices, M = coordinate magnitude *)
+Theorem C19_position_near_vertex_ieee :
+  forall (path : list Pos),
+  Forall (fun p => coord_le p 20) path -> segs_ok path -> (length path <= 2 ^ 50)%nat ->
+  (poly_len (map R2 path) <= Raux.bpow Zaux.radix2 40)%R ->
+  forall M : R, coords_le M path -> (0 <= M)%R ->
+  forall (d : F64) m pm lm,
+  is_finite d = true -> (0 <= B2R d <= B2R (Curve.dist (natural path D.zero)))%R ->
+  nth_error path m = Some pm -> nth_error (natural path D.zero) m = Some lm ->
+  let B := ((1 + delta19) * Rabs (B2R d - B2R lm)
+            + INR (length path) * eta19 * B2R (Curve.dist (natural path D.zero)) + E19max M)%R in
+  exists q, interpolate_vertices path (natural path D.zero) (idx_of_dist (natural path D.zero) d) d = Done q /\
+    (Rabs (B2R (px q) - B2R (px pm)) <= B)%R /\ (Rabs (B2R (py q) - B2R (py pm)) <= B)%R.
+Proof. exact position_near_vertex_ieee. Qed.
+Print Assumptions C19_position_near_vertex_ieee.
+
+(* VERTEX HITS, FULL for the natural lengths (any vertex with a positive
+   cumulative length, clusters of nearly equal lengths, near-zero segments
+   and the last vertex included): position_at (lengths[j] / dist) is vertex j
+   up to (1 + delta19) Dfrac + n eta19 dist + E19max M per coordinate *)
+Theorem C19_vertex_fraction_position_ieee :
+  forall (path : list Pos),
+  Forall (fun p => coord_le p 20) path -> segs_ok path -> (length path <= 2 ^ 50)%nat ->
+  (poly_len (map R2 path) <= Raux.bpow Zaux.radix2 40)%R ->
+  forall M : R, coords_le M path -> (0 <= M)%R ->
+  forall j pj lj,
+  nth_error path j = Some pj -> nth_error (natural path D.zero) j = Some lj -> (0 < B2R lj)%R ->
+  let L := Curve.dist (natural path D.zero) in
+  let B := ((1 + delta19) * Dfrac (B2R lj) (B2R L) + INR (length path) * eta19 * B2R L + E19max M)%R in
+  exists q, position_at path (natural path D.zero) (D.div lj L) = Done q /\
+    (Rabs (B2R (px q) - B2R (px pj)) <= B)%R /\ (Rabs (B2R (py q) - B2R (py pj)) <= B)%R.
+Proof. exact vertex_fraction_position_ieee. Qed.
+Print Assumptions C19_vertex_fraction_position_ieee.
+
+(* GLOBAL Lipschitz bound through the search: two finite distances in [0, dist] *)
+Theorem C19_global_lipschitz_search_ieee :
+  forall (path : list Pos),
+  Forall (fun p => coord_le p 20) path -> segs_ok path -> (length path <= 2 ^ 50)%nat ->
+  (poly_len (map R2 path) <= Raux.bpow Zaux.radix2 40)%R ->
+  forall M : R, coords_le M path -> (0 <= M)%R ->
+  forall a b : F64,
+  is_finite a = true -> is_finite b = true ->
+  (0 <= B2R a <= B2R (Curve.dist (natural path D.zero)))%R ->
+  (0 <= B2R b <= B2R (Curve.dist (natural path D.zero)))%R ->
+  let G := ((1 + delta19) * Rabs (B2R b - B2R a)
+            + INR (length path) * eta19 * B2R (Curve.dist (natural path D.zero)))%R in
+  exists qa qb,
+    interpolate_vertices path (natural path D.zero) (idx_of_dist (natural path D.zero) a) a = Done qa /\
+    interpolate_vertices path (natural path D.zero) (idx_of_dist (natural path D.zero) b) b = Done qb /\
+    (Rabs (B2R (px qa) - B2R (px qb)) <= G + 2 * E19max M)%R /\
+    (Rabs (B2R (py qa) - B2R (py qb)) <= G + 2 * E19max M)%R /\
+    (edist (R2 qa) (R2 qb) <= G + 4 * E19max M)%R.
+Proof. exact global_lipschitz_search_ieee. Qed.
+Print Assumptions C19_global_lipschitz_search_ieee.
+
+(* ... and on position_at: finite progresses in [0, 1] *)
+Theorem C19_global_lipschitz_ieee_position_at :
+  forall (path : list Pos) (M : R) (pa pb : F64),
+  Forall (fun p => coord_le p 20) path -> segs_ok path -> (length path <= 2 ^ 50)%nat ->
+  (poly_len (map R2 path) <= Raux.bpow Zaux.radix2 40)%R -> coords_le M path -> (0 <= M)%R ->
+  is_finite pa = true -> is_finite pb = true -> (0 <= B2R pa <= 1)%R -> (0 <= B2R pb <= 1)%R ->
+  let lens := natural path D.zero in
+  let L := Curve.dist lens in
+  let a := progress_to_dist lens pa in
+  let b := progress_to_dist lens pb in
+  let G := ((1 + delta19) * Rabs (B2R b - B2R a) + INR (length path) * eta19 * B2R L)%R in
+  exists qa qb,
+    position_at path lens pa = Done qa /\ position_at path lens pb = Done qb /\
+    (Rabs (B2R (px qa) - B2R (px qb)) <= G + 2 * E19max M)%R /\
+    (Rabs (B2R (py qa) - B2R (py qb)) <= G + 2 * E19max M)%R /\
+    (edist (R2 qa) (R2 qb) <= G + 4 * E19max M)%R.
+Proof. exact global_lipschitz_position_at_ieee. Qed.
+Print Assumptions C19_global_lipschitz_ieee_position_at.
